@@ -160,7 +160,7 @@ class World(object):
     def __init__(self, dt=1.0 / 64, mtu=1500, n_clients=1, order="cs", latency=1, chooser=None,
                  monitors=(), server_cfg=None, client_cfg=None, key_offset=0, fates=(), fate_filter=None,
                  pinned=True, start_time=1000.0, client_addrs=None, rnd_seed=0, token_source=None,
-                 connect_callback=False, autoconnect=True, server_send="twisted", root_index=None, hash_states=False,
+                 connect_callback=False, autoconnect=True, server_send="twisted", root_index=None, hash_states=False, swap_handler=False,
                  on_connected=None):
         self.dt = dt
         self.on_connected = on_connected   # fn(world, client_end, ok) run INSIDE the client's connect callback
@@ -208,12 +208,31 @@ class World(object):
         # root_index: fix the server's long-term key independently of the ephemeral key pool position
         self.root_key = self.keypool.new() if root_index is None else seams.fixture_keys()[root_index]
         self.handler = RecHandler(self)
-        self.ctxt = ServerContext(self.handler, self.root_key)
+        self.decoy_log = []
+        if swap_handler:
+            # the application configures the context with one handler, builds the server object, and installs ANOTHER
+            # handler before it starts the server: the first one must never hear of anything
+            world__ = self
+
+            class _Decoy(EventHandler):
+                def __getattribute__(self, name):
+                    if name in ("starting", "shutdown", "connect", "disconnect", "handle_message", "update"):
+                        def rec(*a, **k):
+                            world__.decoy_log.append((name, world__.tickno))
+                            if name == "update":
+                                world__.baton.pause("update")    # keep the world ticking whoever gets the updates
+                        return rec
+                    return object.__getattribute__(self, name)
+            self.ctxt = ServerContext(_Decoy(), self.root_key)
+        else:
+            self.ctxt = ServerContext(self.handler, self.root_key)
         for k, v in (server_cfg or {}).items():
             getattr(self.ctxt, k)(v)
         self.ctxt.setInterval(dt)
         self.baton = seams.Baton()
         self.server = TwistedServer(self.ctxt, SERVER_ADDR, install_signals=False)
+        if swap_handler:
+            self.ctxt.handler = self.handler
         self.server.transport = Transport(self)
         th = self.server.thread
         if server_send == "thread":
